@@ -1694,7 +1694,7 @@ func callAssignOp(pkg *Package, tok token.Token, args []*internal.Elem, src []as
 		}
 	}
 	op := pkg.builtin.Ref(name)
-	if tok == token.QUO_ASSIGN {
+	if tok == token.QUO_ASSIGN || tok == token.REM_ASSIGN {
 		checkDivisionByZero(&pkg.cb, &internal.Elem{Val: args[0].Val, Type: args[0].Type.(*refType).typ}, args[1])
 	}
 	fn := &internal.Elem{
@@ -1881,7 +1881,7 @@ func (p *CodeBuilder) BinaryOp(op token.Token, src ...ast.Node) *CodeBuilder {
 		}
 	}
 	if err != nil && !isUserDef {
-		if op == token.QUO {
+		if op == token.QUO || op == token.REM {
 			checkDivisionByZero(p, args[0], args[1])
 		}
 		if op == token.EQL || op == token.NEQ {
